@@ -86,7 +86,49 @@ func runC19(c *Ctx) {
 	sort.Strings(got)
 	c.Check("R19.2", "the emitted lexer skips exactly the terminals WS, EOL and COMMENT", token.NoPos, fmt.Sprint(got) == fmt.Sprint(want), fmt.Sprintf("skipped terminals: %v", got))
 	c.Check("R19.2", "the emitted lexer turns ERR into an error", token.NoPos, fmt.Sprint(sl.errTerms) == "[ERR]", fmt.Sprintf("error terminals: %v", sl.errTerms))
-	checkBlankDiscard(c, p, s)
+	checkBlankDiscard(c, p, s, sl)
+	// the token loop is a loop: no call cycle among the functions of the emitted package (a lexer that calls itself for
+	// every skipped lexeme needs a stack as deep as the longest run of blanks and comments in the input)
+	{
+		fns := allFuncsOfPkgDeep(sp)
+		in := map[*ssa.Function]bool{}
+		for _, f := range fns {
+			in[f] = true
+		}
+		color := map[*ssa.Function]int{}
+		cycle := ""
+		var dfs func(f *ssa.Function, path []string) bool
+		dfs = func(f *ssa.Function, path []string) bool {
+			color[f] = 1
+			found := false
+			allCalls(f, func(call ssa.CallInstruction) {
+				g := call.Common().StaticCallee()
+				if g == nil || !in[g] || found {
+					return
+				}
+				if color[g] == 1 {
+					cycle = strings.Join(append(append([]string{}, path...), f.Name(), g.Name()), " → ")
+					found = true
+					return
+				}
+				if color[g] == 0 && dfs(g, append(path, f.Name())) {
+					found = true
+				}
+			})
+			color[f] = 2
+			return found
+		}
+		rec := false
+		for _, f := range fns {
+			if color[f] == 0 && dfs(f, nil) {
+				rec = true
+				break
+			}
+		}
+		c.Check("R19.1", "emitted lexer: no function of the emitted package calls itself, directly or through others", token.NoPos, !rec && len(fns) >= 20,
+			fmt.Sprintf("call cycle %s (%d functions examined): the depth of the stack grows with the number of consecutive skipped lexemes and a long run of blanks or comments ends in a fatal stack overflow", cycle, len(fns)),
+			"an input with a few million consecutive blanks")
+	}
 
 	checkUTF8Tables(c, p)
 	checkReaderDiscipline(c, p)
@@ -94,7 +136,7 @@ func runC19(c *Ctx) {
 }
 
 // checkBlankDiscard: on a dead transition in the start state the documented blanks are skipped and scanning restarts.
-func checkBlankDiscard(c *Ctx, p *packages.Package, s *scanner) {
+func checkBlankDiscard(c *Ctx, p *packages.Package, s *scanner, sl *scanLoop) {
 	info := p.TypesInfo
 	fd := s.nextFn
 	found := false
@@ -141,6 +183,13 @@ func checkBlankDiscard(c *Ctx, p *packages.Package, s *scanner) {
 			case *ast.BranchStmt:
 				if x.Tok == token.CONTINUE {
 					restarts = true
+				}
+			case *ast.ReturnStmt:
+				// the flagged protocol: (zero token, false, nil) makes the token loop call the scan function again
+				if len(x.Results) == 3 && sl != nil && sl.flagged && sl.driverOK && isNilExpr(info, x.Results[2]) {
+					if tv, ok := info.Types[x.Results[1]]; ok && tv.Value != nil && tv.Value.String() == "false" {
+						restarts = true
+					}
 				}
 			}
 			return true
